@@ -5,19 +5,22 @@
    effect log; the log is judged by the ledger (LedgerCore.apply_all); what the harness observes at rest
    (live items, slots of live item buffers, hygiene flag) is computed FROM THE LEDGER.  Definitions only. *)
 From Coq Require Import ZArith NArith List Bool Lia.
-From DS Require Import RunnerLib LedgerCore LedgerKll LedgerTup LedgerFi.
+From DS Require Import RunnerLib LedgerCore LedgerKll LedgerTup LedgerFi LedgerReq.
 Import ListNotations.
 Local Open Scope Z_scope.
 
-Inductive ost := OK (s : kll) | OT (s : tup) | OF (s : fim).
+Inductive ost := OK (s : kll) | OT (s : tup) | OF (s : fim) | OQ (s : req).
 Record obj := { o_st : ost; o_led : ledger }.
 
-Definition kind_of (o : obj) : Z := match o_st o with OK _ => 0 | OT _ => 1 | OF _ => 2 end.
+Definition kind_of (o : obj) : Z := match o_st o with OK _ => 0 | OT _ => 1 | OF _ => 2 | OQ _ => 3 end.
+
+(* a REQ sketch keeps one ledger per compactor inside its state; the object's ledger is their concatenation *)
+Definition mkq (s : req) : obj := {| o_st := OQ s; o_led := q_ledger s |}.
 
 Definition retained (o : obj) : N :=
-  match o_st o with OK s => k_retained s | OT s => t_num s | OF s => f_num s end.
+  match o_st o with OK s => k_retained s | OT s => t_num s | OF s => f_num s | OQ s => q_retained s end.
 Definition extras (o : obj) : N :=
-  match o_st o with OK s => k_extras s | _ => 0%N end.
+  match o_st o with OK s => k_extras s | OQ s => q_extras s | _ => 0%N end.
 
 (* run an effect log against a ledger: (ledger, rejected?) *)
 Definition judge (X L : ledger) (es : list eff) : ledger * bool :=
@@ -27,24 +30,34 @@ Definition is_nil {A} (l : list A) : bool := match l with [] => true | _ => fals
 
 (* ---- per-object operations: result = (object', hygiene flag) or None (refused, nothing changed) ---- *)
 Definition obj_copy (o : obj) : option (obj * bool) :=
+  match o_st o with
+  | OQ s => let '(s', bad) := req_copy s in Some (mkq s', bad)
+  | _ =>
   let r := match o_st o with
            | OK s => match kll_copy s with Some (s', e) => Some (OK s', e) | None => None end
            | OT s => match tup_copy s with Some (s', e) => Some (OT s', e) | None => None end
            | OF s => match fim_copy s with Some (s', e) => Some (OF s', e) | None => None end
+           | OQ _ => None
            end in
   match r with
   | None => None
   | Some (st', e) => let '(L, bad) := judge (o_led o) [] e in Some ({| o_st := st'; o_led := L |}, bad)
+  end
   end.
 
 (* destructor: flag also when a block survives the destructor (leak) *)
 Definition obj_destroy (o : obj) : bool :=
-  let e := match o_st o with OK s => kll_destroy s | OT s => tup_destroy s | OF s => fim_destroy s end in
+  match o_st o with
+  | OQ s => req_destroy s
+  | _ =>
+  let e := match o_st o with OK s => kll_destroy s | OT s => tup_destroy s | OF s => fim_destroy s | OQ _ => [] end in
   let '(L, bad) := judge [] (o_led o) e in
-  bad || negb (is_nil L).
+  bad || negb (is_nil L)
+  end.
 
 Definition obj_moved_from (o : obj) : obj :=
-  {| o_st := match o_st o with OK s => OK (kll_moved_from s) | OT s => OT (tup_moved_from s) | OF s => OF (fim_moved_from s) end;
+  {| o_st := match o_st o with OK s => OK (kll_moved_from s) | OT s => OT (tup_moved_from s) | OF s => OF (fim_moved_from s)
+                             | OQ s => OQ (req_moved_from s) end;
      o_led := [] |}.
 
 Inductive ures := UDone (o : obj) (bad : bool) | URefused (o : obj) (bad : bool).
@@ -75,6 +88,11 @@ Definition obj_update (o : obj) (v w : Z) (e : line) : ures :=
         end
       | [] => URefused o false
       end
+  | OQ s =>
+      match req_update s with
+      | Some (s', bad) => UDone (mkq s') bad
+      | None => URefused o true
+      end
   end.
 
 (* merge of [s] into [r] (by reference or by move) *)
@@ -90,6 +108,11 @@ Definition obj_merge (r s : obj) : option ures :=
       let '(L, bad) := judge (o_led s) (o_led r) es in
       let o' := {| o_st := OF a'; o_led := L |} in
       Some (if ok then UDone o' bad else URefused o' (bad || abort))
+  | OQ a, OQ b =>
+      match req_merge a b with
+      | Some (a', bad) => Some (UDone (mkq a') bad)
+      | None => if Bool.eqb (q_hra a) (q_hra b) then Some (URefused r true) else None
+      end
   | _, _ => None
   end.
 
@@ -121,6 +144,11 @@ Definition obj_new (kind p1 p2 : Z) : option (obj * bool) :=
   | None => None
   | Some (st, e) => let '(L, bad) := judge [] [] e in Some ({| o_st := st; o_led := L |}, bad)
   end.
+
+(* REQ: the table of section sizes comes with the environment line *)
+Definition obj_new_req (p1 p2 : Z) (e : line) : option (obj * bool) :=
+  if (p1 <? 4) || (255 <? p1) || Z.odd p1 || (p2 <? 0) || (1 <? p2) then None
+  else let '(s, bad) := new_req (zN p1) (p2 =? 1) (map zN e) in Some (mkq s, bad).
 
 (* copy assignment r = s as coded everywhere: copy(s); swap(r, copy); the old r dies with the temporary *)
 Definition obj_copy_assign (r s : obj) : option (obj * bool) :=
@@ -177,7 +205,7 @@ Definition arg (l : line) (i : nat) : Z := nth i l 0.
 Definition op_new (rs : regs) (a1 a2 a3 a4 : Z) (e : line) : regs * outline :=   (* new r kind p1 p2 *)
       match reg_get rs a1 with
       | Some _ => refuse rs false
-      | None => match obj_new a2 a3 a4 with
+      | None => match (if a2 =? 3 then obj_new_req a3 a4 e else obj_new a2 a3 a4) with
                 | Some (ob, bad) => done (reg_set rs a1 ob) a1 bad
                 | None => refuse rs false
                 end
